@@ -122,3 +122,11 @@ add("C10", "translation_validation",
     "accepted or rejected, but only DeserializationException may be raised.",
     "JSON only: the generated xmlization sits on expat, which concretizes every symbolic value, so the XML clause is NOT claimed (see DESIGN.md). Floats are multiples of 0.5, byte arrays 0..2 bytes. "
     "One open known finding (invalid base64 raises binascii.Error).")
+
+add("C29", "translation_validation",
+    "bounded symbolic execution (CrossHair/z3) of the generated Python SDK's descend_once/descend/accept*/transform*/visitors/over_X_or_empty on instance graphs whose shape is symbolic, against an oracle derived from the intermediate representation",
+    "The REAL generator emits the SDK for each corpus model; for every concrete class an instance graph is built whose shape (optional children present or not, list lengths, concrete class "
+    "per abstract slot, depth) is decided by symbolic values; descend_once must yield exactly the directly nested instances in property and list order, descend the pre-order, accept/transform "
+    "(with and without context, and through the generic visit/transform entry points) must reach exactly the method of the concrete class, the pass-through visitor must visit every nested "
+    "instance once, over_X_or_empty must equal the property or the empty iteration.",
+    "Finite family of shapes: the solver mostly enumerates (stated). X_or_default accessors are not emitted by the Python generator for any corpus model, so that clause is vacuous here.")
